@@ -360,6 +360,41 @@ def doc_twins(rep):
     rep.part('doc twins (tier B corpus DD1..DD4 vs DN1..DN4)', pairs=len(DOC_TWINS))
 
 
+def shared_file_docs(rep):
+    """Files holding several documented types: after every export order each declaration still has its own comment block immediately
+    in front of it (the canonical-file oracle of props/c05.py; reduced cells in which the types carry doc blocks, F10's class excluded
+    by construction: the fixed doc blocks contain no empty line)"""
+    from . import c05
+    c05.setup()
+    c05.G['time_budget'] = G.get('time_budget')
+    items5 = []
+    for perm in ([0], [1]):
+        items5.append(dict(k=2, doc0='fixed', body0=0, imps=[[0, 1], [0]], docs=[[1, 2, 3], [0, 1, 2]], generic=[0], perms=perm))
+    for perm in range(6):
+        items5.append(dict(k=3, doc0='fixed', body0=0, imps=[[0], [0], [0]], docs=[[1], [0, 2], [1]], generic=[], perms=[perm]))
+    cand5, cand5_i = [], []
+    for r in par.pmap(c05.explore, items5):
+        cand5 += r.pop('violations', [])
+        cand5_i += r.pop('violations_ident', [])
+        r.pop('known_hits', None)
+        rep.absorb(r)
+    if cand5 and not cand5_i:
+        cand5 = []
+    seen = {}
+    for c in cand5:
+        seen.setdefault(c['what'], c)
+    for c in seen.values():
+        is_viol, details = c05.native_confirm(c)
+        c['native'] = details
+        if is_viol:
+            rep.violations.append({'what': f'documented types in a shared file: {c["what"]} (order {c["order"]}, names {c["names"]})',
+                                   'witness': c, 'key': 'shared/' + c['what']})
+        else:
+            rep.inconclusive.append(f'engine counterexample does not reproduce natively: {c["what"]}')
+    rep.functions += describe(c05.G['fns'], ['export_and_merge', 'merge'])
+    rep.part('documented types in shared files (reduced C05 cells)', cells=len(items5))
+
+
 def main():
     rep = report.Report('C15', 'bounded symbolic execution of rustc MIR: parse_docs/escape_doc on attribute lists whose kind flags and doc '
                                'text bytes are symbolic; z3 decides on every path that the result is empty or one /** .. */ block whose only '
@@ -376,6 +411,10 @@ def main():
     except Unsupported as e:
         rep.inconclusive.append(f'merge_part: {e}')
     docs_do_not_alter_type(rep)
+    try:
+        shared_file_docs(rep)
+    except Unsupported as e:
+        rep.inconclusive.append(f'shared files: {e}')
     maxlen = 4 if quick else 5
     items = [()] + [(a,) for a in range(0, maxlen + 2)] + [(a, b) for a in range(0, maxlen + 1) for b in range(0, maxlen + 1) if a + b <= maxlen + 1]
     items += [(a, b, c) for a in range(0, 2 if quick else 3) for b in range(0, 2 if quick else 3) for c in range(0, 2 if quick else 3)]
